@@ -45,6 +45,45 @@
         std::mem::forget(w);
     }
 
+
+    // short and zero-length writes (io::Write::write may accept fewer bytes than offered, or none)
+    struct Chunky { calls: usize, zero_at: usize, got: [u8; 8], n: usize }
+    impl io::Write for Chunky {
+        fn write(&mut self, buf: &[u8]) -> io::Result<usize> {
+            self.calls += 1;
+            if self.calls == self.zero_at { return Ok(0); }
+            if buf.is_empty() { return Ok(0); }
+            if self.n < 8 { self.got[self.n] = buf[0]; self.n += 1; }
+            Ok(1) // accept one byte per call
+        }
+        fn flush(&mut self) -> io::Result<()> { Ok(()) }
+    }
+//# ob name=write_wrapper_short_writes fn=output::WriteWrapper::{write_str,write_char} kind=bounded bound="a sink that accepts one byte per call, with an optional zero-length write at call z in 1..=6; sequence write_str(\"ab\"), write_char('é'), write_char('-')" stmt="short writes lose nothing: every byte of every write_str / write_char (multi-byte characters included) reaches the sink in order; a zero-length write is an error (stored, fmt::Error returned), never silently accepted"
+    #[kani::proof]
+    #[kani::unwind(12)]
+    fn write_wrapper_short_writes() {
+        let z: usize = kani::any(); kani::assume(z <= 6);
+        let mut w = WriteWrapper { w: Chunky { calls: 0, zero_at: z, got: [0; 8], n: 0 }, err: None };
+        let r1 = fmt::Write::write_str(&mut w, "ab").is_ok();
+        let r2 = if r1 { fmt::Write::write_char(&mut w, 'é').is_ok() } else { false };
+        let r3 = if r2 { fmt::Write::write_char(&mut w, '-').is_ok() } else { false };
+        let all: [u8; 5] = [b'a', b'b', 0xC3, 0xA9, b'-'];
+        if z == 0 || z > 5 {
+            assert!(r1 && r2 && r3 && w.err.is_none());
+            assert!(w.w.n == 5);
+        } else {
+            // the zero-length write happens while byte number z is being delivered
+            assert!(!(r1 && r2 && r3));
+            assert!(w.err.is_some());
+            assert!(w.w.n == z - 1);
+        }
+        let mut i = 0;
+        while i < w.w.n { assert!(w.w.got[i] == all[i]); i += 1; }
+        kani::cover!(z == 3, "zero-length write inside the multi-byte character");
+        kani::cover!(z == 0, "only short writes");
+        std::mem::forget(w);
+    }
+
 //# ob name=take_err_substitutes role=disabled fn=output::WriteWrapper::take_err kind=bounded bound="error kinds {BrokenPipe, Other, WouldBlock}; original error kinds {WriteFailure, InvalidOperation}" stmt="take_err(orig): if an I/O error was stored the result has kind WriteFailure and carries a source; otherwise orig is returned unchanged - whatever the kind of orig (errors wrapped by include/super keep the writer's error)"
     // disabled: does not terminate within 600 s (io::Error's packed repr and the dyn Error source chain); take_err is
     // exercised by failing_sink_native instead
@@ -69,7 +108,7 @@
     }
 
     // ---- the emit sites of eval_impl and the API boundary are G-VM: BOUNDED native stand-in with a failing sink
-//# ob name=failing_sink_native role=native_bounded fn=template::Template::render_captured_to+vm::state::State::render_block_to_write+utils::write_escaped kind=bounded bound="9 programs (plain, html-escaped text with metacharacters, loop, macro, set-block, filter block, include, extends+super, nested include in block) x sink failure at the k-th write call for every k up to the total x error kinds {BrokenPipe, Other, WouldBlock}; plus render_block_to_write" stmt="the bytes delivered to the writer are always a prefix of the plain render, in order, without duplication; when the writer fails rendering stops (no write call after the failed one), and the call returns a WriteFailure error whose source chain contains the writer's own io::Error with the same kind; the failure is never swallowed or reported as a different kind"
+//# ob name=failing_sink_native role=native_bounded fn=template::Template::render_captured_to+vm::state::State::render_block_to_write+utils::write_escaped kind=bounded bound="9 programs (plain, html-escaped text with metacharacters, loop, macro, set-block, filter block, include, extends+super, nested include in block) x sink failure at the k-th write call for every k up to the total x error kinds {BrokenPipe, Other, WouldBlock}; a one-byte-per-call sink with a zero-length write at every call index; plus render_block_to_write with a sink that recovers after its failure" stmt="the bytes delivered to the writer are always a prefix of the plain render, in order, without duplication; when the writer fails rendering stops (no write call after the failed one), and the call returns a WriteFailure error whose source chain contains the writer's own io::Error with the same kind; the failure is never swallowed or reported as a different kind"
     fn failing_sink_native() {
         use crate::Environment;
         struct Sink { calls: usize, k: usize, kind: io::ErrorKind, got: Vec<u8>, calls_after_failure: usize, failed: bool }
@@ -80,6 +119,19 @@
                 if self.calls > self.k { self.failed = true; return Err(io::Error::new(self.kind, "sink failed")); }
                 self.got.extend_from_slice(buf);
                 Ok(buf.len())
+            }
+            fn flush(&mut self) -> io::Result<()> { Ok(()) }
+        }
+        // a sink that accepts one byte per call and reports a zero-length write at call z (0 = never)
+        struct Chunky { calls: usize, z: usize, got: Vec<u8>, zeroed: bool, calls_after_zero: usize }
+        impl io::Write for Chunky {
+            fn write(&mut self, buf: &[u8]) -> io::Result<usize> {
+                if self.zeroed { self.calls_after_zero += 1; return Ok(0); }
+                self.calls += 1;
+                if self.calls == self.z { self.zeroed = true; return Ok(0); }
+                if buf.is_empty() { return Ok(0); }
+                self.got.push(buf[0]);
+                Ok(1)
             }
             fn flush(&mut self) -> io::Result<()> { Ok(()) }
         }
@@ -132,6 +184,24 @@
                 }
             }
         }
+        // short writes lose nothing; a zero-length write stops the render with an error
+        for (name, _) in programs {
+            let tmpl = env.get_template(name).unwrap();
+            let neg = crate::context! { v => -12345, w => "é-ü" };
+            let reference = tmpl.render(&neg).unwrap();
+            let mut c = Chunky { calls: 0, z: 0, got: Vec::new(), zeroed: false, calls_after_zero: 0 };
+            tmpl.render_captured_to(&neg, &mut c).unwrap();
+            assert!(c.got == reference.as_bytes(), "{name}: short writes changed the output");
+            let total = c.calls;
+            for z in 1..=total {
+                let mut c = Chunky { calls: 0, z, got: Vec::new(), zeroed: false, calls_after_zero: 0 };
+                let res = tmpl.render_captured_to(&neg, &mut c).map(|_| ());
+                assert!(reference.as_bytes().starts_with(&c.got), "{name} z={z}: not a prefix");
+                assert!(res.is_err(), "{name}: a zero-length write at call {z} was swallowed");
+                assert!(c.calls_after_zero == 0, "{name} z={z}: the sink was called again after a zero-length write");
+                assert!(res.unwrap_err().kind() == crate::ErrorKind::WriteFailure);
+            }
+        }
         // render_block_to_write
         let tmpl = env.get_template("incblock.html").unwrap();
         let mut cap = tmpl.render_captured(&ctx).unwrap();
@@ -140,7 +210,7 @@
             let mut sink = Sink { calls: 0, k, kind: io::ErrorKind::BrokenPipe, got: Vec::new(), calls_after_failure: 0, failed: false };
             let res = cap.with_state_mut(|s| s.render_block_to_write("body", &mut sink));
             assert!(reference.as_bytes().starts_with(&sink.got));
-            assert!(sink.calls_after_failure == 0);
+            assert!(sink.calls_after_failure == 0, "render_block_to_write k={k}: the sink was called again after it failed");
             if sink.failed {
                 let e = res.unwrap_err();
                 assert!(e.kind() == crate::ErrorKind::WriteFailure, "render_block_to_write k={k}: {:?}", e.kind());
